@@ -450,7 +450,7 @@ func (c *Ctx) probeLoopStops(rule string) {
 		switch n {
 		case "(*net/http.Client).Do", "(*net/http.Transport).RoundTrip":
 			nSend++
-			req := cs.common().Args[1]
+			req := nonNilSource(cs.common().Args[1])
 			if e, ok := req.(*ssa.Extract); ok {
 				req = e.Tuple
 			}
